@@ -12,575 +12,594 @@ Definition show_fres (r : fres) : string :=
   end.
 Definition check (rs : list rune) : string := digest (show_fres (format_res rs)).
 Definition full (rs : list rune) : string := show_fres (format_res rs).
-Eval vm_compute in ("<<<M218>>>" ++ check (runes_of_ascii "packet rootA
-    {Header { repeat i64 int ,
-char[]x	@lengthOf(
-metadata
-    ) , }
-,@leftPad (// a // b
-'\x00'
-    /// triple
-    )a1 string_ , @tag( 0 ) char[]
-    pack @lengthOf( uint8x
-), @calculatedFrom(""a	b"" )
-// " ++ [128512]%N ++ runes_of_ascii " emoji
-//x
-f64
-string_
-    , char[] packetx ,
+Eval vm_compute in ("<<<M1685>>>" ++ check (runes_of_ascii "// c
+packet uint8x {
+    @tag(65535)
+    x_y_z,
+    char[] a1 @calculatedFrom(""`tick`""),
+    @tag(1)
+    @tag(1)
+    @tag(4294967296)
+    repeat string rootA `tab	here`,
+    repeat i32 tag,
 }
-packet  repeatCount	{@rightPad(	)
-falsey A
-    `" ++ [233]%N ++ runes_of_ascii "`,// packet A { u8 x, }
-repeat _x {
-    u8x
-, f32a {char[ 7 ] Header
-    // `tick` ""quote"" 'q'
-    @lengthOf( i8i8 )
-`" ++ [233]%N ++ runes_of_ascii "` ,
+
+packet pack {
+    @calculatedFrom(""// no comment"")
+    @lengthOf(uint8x)
+    string zchar @calculatedFrom(""`tick`""),
+}
+
+root packet tag {
     // trailing space 
-    } , Header Pad , u8x Logon
-`100% of %d`, }  , repeat string o , int16 zchar@calculatedFrom(// a // b
-""CRC32"" )	`two words`, @tag( 4294967296 )chars { Pad
-packetx`two words` , uint32 stringy@lengthOf( x_y_z ) ``	,	}
-    ,	repeat Header{
-repeat char[ // c
-4294967296
-] Header ,	trueish As , //x
-body ,
-u8 msg_type `tab	here` , } , // a // b
-f64
-    u8x
-`two words`,  repeat len
-    lengthOf,
-    } options/// triple
-{
-rootA
-=
-'0' i64_
-    =/// triple
-zchar[ 0123456789] ; } packet msg_type
-    { x @lengthOf( uint8x) ,@tag( 00 ) char[] calculatedFrom	,
-    repeat Z9_
-{ repeat float64 Pad
-    //x
-    , } ,}// c
-root
-    packet calculatedFrom{ zchar[
-1
-    ]
-    f32a, repeat
-    uint8x {
-match crc  as u8x{0 : zchar , [
-65535 ,
-0
-, ""CRC32""  ,	4294967296 ,
-42, ""\" ++ [233]%N ++ runes_of_ascii """] :chars, ""`tick`"" :
-pack , 255
-// " ++ [128512]%N ++ runes_of_ascii " emoji
-//	t
-:Pad, }
-    ,
-    string a1 `it's`
-,
-tag
-{ a1
-    , //
-match BodyLength as //x
-options1
-{
-    ""packet""
-: Z9_ } , MetaDataX@calculatedFrom( """ ++ [28040; 24687]%N ++ runes_of_ascii """
-    ) // packet A { u8 x, }
-,
-tag
-Pad
-// a // b
-// 50% %s
-, },
-    }  ,
-@tag(
-255
-)zchar[0123456789
-    ]o //x
-,  int16 Logon , @calculatedFrom( """ ++ [128512]%N ++ runes_of_ascii """
-)
-char[ 0 ] metadata
-`it's`
-    , }
-")).
-Eval vm_compute in ("<<<M1725>>>" ++ check (runes_of_ascii "// @lengthOf(
-MetaData BodyLength {
-    u8x u128 `a\`,
-}
-
-packet stringy {
-}
-
-packet a1 {
-    i8 f32a `
-        `,
-    repeat i64 len,
-    @calculatedFrom(""\" ++ [233]%N ++ runes_of_ascii """)
-    string leftPad `line1
-        line2`,
-    match a1 as float {
-        [007, 3] : repeatCount,
-        3 : MetaDataX,
-        ""CRC32"" : u128,
-        [""a\""b"", ""// no comment""] : roots,
-        ""\" ++ [233]%N ++ runes_of_ascii """ : A,
-    },
-    zchar[42] Pad,/// triple
-    @calculatedFrom(""" ++ [233]%N ++ runes_of_ascii "t" ++ [233]%N ++ runes_of_ascii """)
-    // `tick` ""quote"" 'q'
-    match chars as string_ {
-        3 : options1,
-    },
-    uint32 packetx ``,
     @tag(42)
-    @tag(1)
-    /// triple
-    @calculatedFrom(""" ++ [128512]%N ++ runes_of_ascii """)
-    _x `// not a comment`,
-}
-
-root packet repeatCount {
-    @leftPad(
-        )
-    char[0] x_y_z @calculatedFrom(""1""),
-    @rightPad( )
-    char[] int,
-    f64 asx,
-    repeat Pad,
-    match i64_ as roots {
-        [""1"", ""packet""] : a1,
-        ""`tick`"" : trueish,
-        [
-            3, ""\n"", ""`tick`"", ""it's"", 10,
-            ""a\""b"", ""CRC32""
-        ] : As,
-        [10, 10] : options1,
-        ""CRC32"" : a1,
-        65535 : u,
-        // c
+    @lengthOf(As)
+    @leftPad('0')
+    match u128 as float {
+        [00] : charz,
     },
-    @calculatedFrom(""x y"")
-    @tag(255)
-    @tag(1)
-    // c
-    zchar[1] crc `
-        `,
-    repeat u16 tag `crlf
-        line`,
-    @leftPad(' ')
-    roots @calculatedFrom(""""),
-}")).
-Eval vm_compute in ("<<<M347>>>" ++ check (runes_of_ascii "
-options
-{} MetaData f32a
-{
-// packet A { u8 x, }
-// 50% %s
-uint32 u128//
-`" ++ [28040; 24687; 31867; 22411]%N ++ runes_of_ascii "` ,
-// " ++ [27880; 37322]%N ++ runes_of_ascii "
-// a // b
-zchar[ 0 ]
-    //	t
-    o
-    , char[
-    0 ]float,
-    msg_type msg_type , } packet // a // b
-x_y_z { // a // b
-repeat T
-    { match
-    msg_type as
-packetx {// a // b
-""packet"" :
-falsey 42:	a1,} , int o , char[// c
-42	]i64_ `100% of %d`, repeatCount	@calculatedFrom( ""it's"" // a // b
-),
-// trailing space 
-// " ++ [27880; 37322]%N ++ runes_of_ascii "
 }
-,  @tag( //
-0 ) // " ++ [27880; 37322]%N ++ runes_of_ascii "
-falsey @lengthOf(BodyLength
-)
-//	t
-// c
-, @leftPad
-    // packet A { u8 x, }
-    () @calculatedFrom( ""1"" ) @lengthOf( // " ++ [128512]%N ++ runes_of_ascii " emoji
-int )
-    match trueish as body{ [ 007 ,
-7 //
-, ""abc"",
-""x y""
-, 00
-    ,
-    ""// no comment""
-    ,255 ,
-1
-    ]
-: body,} , @lengthOf( Pad
-    ) metadata	@calculatedFrom(	""it's""
-) , @leftPad ( )
-//
-/// triple
-@calculatedFrom(
-""" ++ [233]%N ++ runes_of_ascii "t" ++ [233]%N ++ runes_of_ascii """ // 50% %s
-)char // @lengthOf(
-falsey	`{ , }` , char[ 007 ]
-metadata @lengthOf(chars ) , @rightPad ( '0'  ) u8 roots @calculatedFrom( ""packet"" )
-    // @lengthOf(
-    ,
-//x
-//x
+
+packet chars {
+    @leftPad('\x00')
+    char[10] len @calculatedFrom(""a	b""),
+    @tag(00)
+    @tag(10)
+    uint64 matchKey,
+    x_y_z {
+        repeat string rootA `doc`,
+        tag,
+        repeat char MetaDataX,
+        int64 asx,
+    },// trailing space 
+    i16 stringy,
+    match x_y_z as BodyLength {
+        [
+            ""\" ++ [233]%N ++ runes_of_ascii """, """ ++ [28040; 24687]%N ++ runes_of_ascii """, 7, 0, 7,
+            4294967296
+        ] : A,
+        // " ++ [128512]%N ++ runes_of_ascii " emoji
+    },
+    @calculatedFrom(""\n"")
+    @leftPad()
+    f64 msg_type,
+    repeat Logon `say ""hi""`,
+    @tag(007)
+    match crc as msg_type {
+        [
+            ""a\\"", 0123456789, ""`tick`"", """ ++ [233]%N ++ runes_of_ascii "t" ++ [233]%N ++ runes_of_ascii """, ""{,}"",
+            255, 0123456789
+        ] : Header,
+        0123456789 : len,
+        65535 : BodyLength,
+        ""CRC32"" : string_,
+        4294967296 : len,
+        """ ++ [28040; 24687]%N ++ runes_of_ascii """ : trueish,
+    },
+    repeat string u,
+    lengthOf Z9_ `{ , }`,
+}// 50% %s
+
+packet trueish {
+    f32 Logon @calculatedFrom(""1""),
+    i64 matchKey @calculatedFrom(""x y"") `" ++ [28040; 24687; 31867; 22411]%N ++ runes_of_ascii "`,
+    i8i8 `it's`,
+    msg_type,
+    uint8 lengthOf,
+    int trueish,
+    char[0123456789] uint8x,
+    i8 int @lengthOf(msg_type) `say ""hi""`,
+    @rightPad()
+    repeat f64 Z9_,
+    metadata {
+        falsey @calculatedFrom(""abc""),
+    },
 }")).
-Eval vm_compute in ("<<<M1361>>>" ++ check (runes_of_ascii "// top
-options
-    // c0
-{ LittleEndian // c2a
-  // c2b
-= // c3
-true // c4
-;
-    // c5
-StringPrefixLenType =
-    // c7
-u16 // c8
-; // c9a
-  // c9b
-ArrayPrefixLenType = u16 // c12a
-  // c12b
-;
+Eval vm_compute in ("<<<M1970>>>" ++ check (runes_of_ascii "// top
+options {
+    LittleEndian = false;// c5
+    FixedStringPadChar = ' ';
+    // c9
+}// c10a
+
+// c10b
+packet Fill {
     // c13
-FixedStringPadFromLeft // c14
-= // c15a
-  // c15b
-true
-    // c16
-; // c17a
-  // c17b
-FixedStringPadChar = // c19
-'0' // c20
-; // c21
-}
-    // c22
-packet
-    // c23
-Leg { // c25a
-  // c25b
-u16 // c26
-Flags // c27
-,
-    // c28
-u8 price , } // c32
-packet
-    // c33
-Quote // c34a
-  // c34b
-{ uint16
-    // c36
-count
-    // c37
-, // c38
-InNote89 // c39a
-  // c39b
-{ repeat Leg // c42a
-  // c42b
-, // c43a
-  // c43b
-}
-    // c44
-, } root // c47
-packet // c48a
-  // c48b
-Ack // c49a
-  // c49b
-{
-    // c50
-char[ 3 ]
+    InFlags6 {
+        // c15
+        repeat u64 count,
+    },// c21a
+    // c21b
+    char[8] price,
+    repeat char[2] lastPx,
+    // c32
+    char[] count,
+}// c36
+
+packet Quote {
+    // c39
+    char[] Qty,
+    int32 sym,
+    // c45
+    zchar[9] Flags,
+    int8 tag7,
     // c53
-price // c54a
-  // c54b
-, // c55
-u64 sym ,
-    // c58
-zchar[ // c59
-1 // c60a
-  // c60b
-] // c61
-Tail // c62a
-  // c62b
-, // c63
-} // c64a
-  // c64b
-")).
-Eval vm_compute in ("<<<M116>>>" ++ check (runes_of_ascii "packet crc {uint16
-    // " ++ [128512]%N ++ runes_of_ascii " emoji
-    MetaDataX @calculatedFrom( ""{,}""
-)	`two words`
-, @tag( 3
-    //x
-    )repeat roots { repeat string	f32a ,	} , @tag(	42 )
-char[]//
-a1  `" ++ [28040; 24687; 31867; 22411]%N ++ runes_of_ascii "` ,@calculatedFrom(// a // b
-""packet"" // trailing space 
-) i16
-    // trailing space 
+    char[7] count,// c58a
+    // c58b
+}// c59a
+
+// c59b
+packet Cancel {
+    string Acct,
+    @rightPad('\x00')
+    // c69
+    char[2] Note,// c74a
+    // c74b
+    zchar[5] Side2,
+    // c79
+}// c80a
+
+// c80b
+packet Trade {
+    repeat Quote,
+    // c86
+    Fill,
+    // c88
+    repeat i64 Side2,
+    // c92
+    uint16 Tail,
+    zchar[7] OrderId,// c100
+}
+
+// c101
+root packet Party {
+    repeat InLastpx79 {
+        // c108a
+        // c108b
+        char[12] Px,
+        int8 Tail,
+    },
+    f32 count,
+    // c121
+    repeat u8 Note,
+    // c125
+    Trade,// c127a
+    // c127b
+    f64 venue,// c130
+    @rightPad('\x00')
+    char[11] tag7,
+    u16 Px,// c142a
+    // c142b
+    u32 Side2 @lengthOf(Body),
+    match Px as Body {
+        [48, 188] : Fill,
+        // c161
+        190 : Trade,
+        160 : Quote,
+        // c169
+        85 : Cancel,
+    },
+    // c175
+}
+// c176")).
+Eval vm_compute in ("<<<M1817>>>" ++ check (runes_of_ascii "
+
+  MetaData 
+Z9_{	string roots 
+, 
+repeatCount
+
+    packetx `say ""hi""`,	}  
+      //
+  // packet A { u8 x, }
+packet
+
     float
-    `tab	here` , match metadata as Logon	{
-    """"
-    :u , 42: MetaDataX
-255:
-roots,[ 3 ,10
-//
-// `tick` ""quote"" 'q'
-]: _x 4294967296 :
-chars
-10 // " ++ [128512]%N ++ runes_of_ascii " emoji
-: uint8x , }
-,
-@lengthOf(  trueish )
-    repeat char[// 50% %s
-007] roots ,}  options { roots  = int32 ; } root packet Logon
-    { // packet A { u8 x, }
-@leftPad
-( '\x00')asx @calculatedFrom(
-    ""// no comment"" ) `{ , }`
-    , }
-MetaData
-    Packet {
-    i32
-// " ++ [128512]%N ++ runes_of_ascii " emoji
-//
-trueish `100% of %d`, }")).
-Eval vm_compute in ("<<<M1952>>>" ++ check (runes_of_ascii "  packet 
-msg_type 
-{
 
-    @lengthOf( trueish ) @calculatedFrom( 	 //	t
+{ 
+repeat
+    char[]
+    metadata,
 
-  ""packet""
-    )
-    @rightPad (
-    ) trueish
-chars 
+    zchar[00 
+]
 
-    // c
-    	, }root	packet
-	i64_  { }	packet
+    leftPad @calculatedFrom(
 
-charz	{// " ++ [128512]%N ++ runes_of_ascii " emoji
-  repeat float64 	 // @lengthOf(
-  u8x
-`{ , }`
+    """ ++ [233]%N ++ runes_of_ascii "t" ++ [233]%N ++ runes_of_ascii """) `" ++ [233]%N ++ runes_of_ascii "` ,string
+T
+	@lengthOf( Pad
+)  `doc` , match 
+f32a  as	crc 
+{ ""x y"" 
+: Foo ,  // @lengthOf(
+
+  0  :_x 
+[
+""1""
+    ]  : 
+      // a // b
+  	// packet A { u8 x, }
+  As
+	[255 , 1,
+"""", 
+""1""
 
     ,
+	""abc"" ,
 
-roots
-@lengthOf(
-	BodyLength
-)
-`` ,
-	repeat string Header
-    //x
-  ,
-Z9_
+    """ ++ [233]%N ++ runes_of_ascii "t" ++ [233]%N ++ runes_of_ascii """,10 ] 
+: leftPad
 
-@lengthOf(A 
-) 
-, @rightPad ( 
-) repeat
-len
-
-`" ++ [233]%N ++ runes_of_ascii "`
-	, float64
-    Foo
-
-@lengthOf(
-
-    Header
-    )
-
-    ,
-
-    repeat
-
-char[
-0 ] charz  // c
-
-	`say ""hi""`,
-	string
-
+    , // @lengthOf(
+  ""{,}""
+: 
 a1
-	, 
-@leftPad
-    (	'0'
-)
-    metadata	{  zchar[
-    42] i8i8	@lengthOf( lengthOf)	,  
-      //x
-    /// triple
-	}
-,  }
-    options {
-	}
 
-")).
-Eval vm_compute in ("<<<M1803>>>" ++ check (runes_of_ascii "  MetaData
+4294967296
+	: body  ,
 
-T{ char[
-	0123456789
-    ]
+//
+  }  ,
 
-rootA `line1
-line2` ,
-	i32 Logon
-
-,
-    rootA
-asx ,
-
-} 
-root	/// triple
-  packet
-Header
-{
-uint32
-
-len  @lengthOf( u
-	)
-    `
-`
-
-    , repeat
-
-char	MetaDataX/// triple
-    `" ++ [28040; 24687; 31867; 22411]%N ++ runes_of_ascii "` 
-, uint8x	@lengthOf(
-	zchar) // @lengthOf(
-`u8 x,`  
-  // " ++ [27880; 37322]%N ++ runes_of_ascii "
-
-// packet A { u8 x, }
-  ,uint8 Z9_,  @lengthOf(
-u128
-	)
-    @lengthOf( MetaDataX ) @tag(0123456789
-
-)
-    Logon	@lengthOf(
-        /// triple
-    body
+    lengthOf 
+@calculatedFrom(
+	""\" ++ [233]%N ++ runes_of_ascii """)	,// packet A { u8 x, }
+      @calculatedFrom(""`tick`""
 	)
 
-,}
-options
-{	Z9_
+@lengthOf( u
+	)
 
-=
+    @leftPad (
 
-uint32  ;
-options1
+'0'
+)	match
+o as
+	BodyLength{[ 3  ,  1 ,	""a\\"",
 
-    = '\x00'	}options  { Foo
+    ""`tick`"" 
+,  // @lengthOf(
+	1
+,  1
+]  :  asx ,
+[ ""a	b"" ,
+255
+, 3 ,
 
-    =	""// no comment"" 
-;	}
-	packet float 
-{  }
-")).
-Eval vm_compute in ("<<<M1386>>>" ++ check (runes_of_ascii "options
+""abc""
+, 65535
+    ] :asx
+	,  10:
+    Z9_  ,  [
+    10
+, //
+    	""CRC32""
 
-    {
-LittleEndian = false
+    ,7 
+]
+	: roots  ,
 
-    ;
-	StringPrefixLenType =
+    } , 
+// 50% %s
 
 u16
-;FixedStringPadFromLeft =	true
 
-    ;	FixedStringPadChar  = 
-'0' ; } packet
-
-Fill 
-{
-	}
-
-    root
-    packet
-
-Order	{
-repeat
-
-Fill  , 
-char[]clOrdID  ,
-    @rightPad
-    ('\x00'	)
-
-    char[4
-
-    ]
-
-lastPx
-, char[] 
-OrderId	, int8 tag7
-
-    ,u8 f1
-, u16 count
-
-    @lengthOf( Body
-    ) ,match
-f1
-
-as
-Body
-
-    {
-	[159
-	, 
-49	]:
-    Fill
+a1
 
 ,
-    }
-
-    ,  u16  Tail  @calculatedFrom(
-""CRC32""
-
-    ), 
-}")).
-Eval vm_compute in ("<<<M135>>>" ++ check (runes_of_ascii "packet	repeatCount {
 @tag(
-7 )
-    match
-T as
-    i64_ {
-""" ++ [233]%N ++ runes_of_ascii "t" ++ [233]%N ++ runes_of_ascii """:/// triple
-body,
-    }
-,@lengthOf( crc ) float64 body  `u8 x,` , repeat // a // b
-rootA //	t
-{  int16 x_y_z`two words` // " ++ [27880; 37322]%N ++ runes_of_ascii "
-, zchar[  4294967296
-    // @lengthOf(
-    ] trueish`two words` ,Pad@lengthOf(	Pad )  `// not a comment` ,  } ,
-tag string_
-    , @lengthOf( len )
-    // packet A { u8 x, }
-    @tag(255 ) @lengthOf(
+
+00
+
+    ) uint32
+MetaDataX`u8 x,`  , @leftPad (
+
+'\x00' )  @rightPad	//x
+  ()i64	calculatedFrom ,
+} ")).
+Eval vm_compute in ("<<<M122>>>" ++ check (runes_of_ascii "
+packet metadata { float // " ++ [27880; 37322]%N ++ runes_of_ascii "
+, repeat string calculatedFrom , @rightPad ( ' ' ) chars
+a1,
+    @leftPad ('0')	@tag(
+    255 ) @calculatedFrom( """ ++ [233]%N ++ runes_of_ascii "t" ++ [233]%N ++ runes_of_ascii """ )
+match trueish as x { // packet A { u8 x, }
+""x y"":
+calculatedFrom [
+    42 ]
+    // 50% %s
+    : float ,  3 // @lengthOf(
+:packetx // c
+,
+} ,
+zchar[ 00 ]	crc , repeat
+char[ 1 ] roots`doc` ,// trailing space 
+match float as Logon
+{
+7 :metadata,
+    },@lengthOf(
+    Logon )
+    @tag(
+    00 ) @tag(42 )
+    match Logon as options1
+{7 :MetaDataX 3
+:// " ++ [128512]%N ++ runes_of_ascii " emoji
+calculatedFrom ,10 :Pad // 50% %s
+, [
+    """ ++ [128512]%N ++ runes_of_ascii """ , ""// no comment""
+]: packetx
+,
+[ 42
+, ""packet"" , ""1""
+,
+""a\""b""
+, 42 ]: Z9_ },
+    float32// a // b
+falsey //	t
+`{ , }` ,
+@calculatedFrom( ""CRC32"" )i64 As
+    `doc`
+    ,
+}/// triple
+packet	_x // " ++ [27880; 37322]%N ++ runes_of_ascii "
+{
+repeat
+    //	t
+    u {
     // " ++ [27880; 37322]%N ++ runes_of_ascii "
-    Logon
-)int
-, Foo @lengthOf( leftPad )`
-` , }
+    repeat zchar calculatedFrom//	t
+`a\` , leftPad A
+`it's` , string leftPad @lengthOf(Pad )``, } ,
+    }
+// a // b
 ")).
-Eval vm_compute in ("<<<M1387>>>" ++ check (runes_of_ascii "options {
+Eval vm_compute in ("<<<M1417>>>" ++ check (runes_of_ascii "
+// a // b
+  packet
+
+    rootA
+    {@tag(
+
+    0
+)
+string falsey @calculatedFrom(  ""// no comment"" 
+)	,  u32
+string_
+
+,	}
+	packet  Header	{ 
+        //	t
+
+	repeat 	 // c
+      zchar[10	// " ++ [27880; 37322]%N ++ runes_of_ascii "
+] 
+Header`" ++ [28040; 24687; 31867; 22411]%N ++ runes_of_ascii "`
+,}root
+    packet 	 // trailing space 
+		charz
+    {
+@tag(42
+    )	f32	Z9_  // packet A { u8 x, }
+
+  @calculatedFrom( ""a\""b"")  `it's`
+
+    , @calculatedFrom(	""\" ++ [233]%N ++ runes_of_ascii """
+	)match
+
+    rootA  as
+    rootA  {
+    """ ++ [28040; 24687]%N ++ runes_of_ascii """:
+//	t
+  x	7//
+	  :
+    charz }	, // c
+  int64
+metadata @calculatedFrom(
+
+    """ ++ [233]%N ++ runes_of_ascii "t" ++ [233]%N ++ runes_of_ascii """  )
+    ,
+	match  i8i8
+    as
+	i64_
+    { 3  : Logon
+	, [
+	7, 
+""" ++ [28040; 24687]%N ++ runes_of_ascii """
+]: repeatCount
+    // `tick` ""quote"" 'q'
+,  ""\" ++ [233]%N ++ runes_of_ascii """
+:msg_type  //
+	,
+} 
+        //
+		, @lengthOf(
+
+    Logon
+
+    )
+repeat
+
+    leftPad
+    BodyLength,repeat //	t
+uint8x `
+`
+	,
+} ")).
+Eval vm_compute in ("<<<M169>>>" ++ check (runes_of_ascii "MetaData
+i8i8	{
+char[// " ++ [128512]%N ++ runes_of_ascii " emoji
+00 ] msg_type
+`say ""hi""`  ,
+} // " ++ [128512]%N ++ runes_of_ascii " emoji
+MetaData// packet A { u8 x, }
+charz
+{ zchar[ 0
+]
+    options1 ,	}packet	MetaDataX
+{ // packet A { u8 x, }
+Header /// triple
+u8x`// not a comment` ,
+    x rootA , @lengthOf(falsey
+    )
+@lengthOf(
+//x
+// " ++ [27880; 37322]%N ++ runes_of_ascii "
+i8i8
+    )
+    match MetaDataX as stringy { [// " ++ [128512]%N ++ runes_of_ascii " emoji
+""" ++ [128512]%N ++ runes_of_ascii """ // @lengthOf(
+, ""a\""b""  ] : i64_// c
+,} , } MetaData
+    // `tick` ""quote"" 'q'
+    msg_type { string
+// `tick` ""quote"" 'q'
+// trailing space 
+zchar `doc` ,
+    //
+    } MetaData leftPad{ uint8 x`crlf
+line`
+, i32 msg_type
+// packet A { u8 x, }
+//x
+`// not a comment` ,
+char[255] leftPad , // a // b
+char[]
+    u , //	t
+} 	 ")).
+Eval vm_compute in ("<<<M107>>>" ++ check (runes_of_ascii "  MetaData As { }
+packet// 50% %s
+rootA {
+    zchar[ 4294967296	]  uint8x, @calculatedFrom( ""`tick`"") f64 asx	@calculatedFrom(""a\""b""
+), @leftPad('\x00'
+    // trailing space 
+    )// @lengthOf(
+@calculatedFrom(""1""	)
+    @lengthOf( stringy // " ++ [128512]%N ++ runes_of_ascii " emoji
+)repeat float falsey `say ""hi""` , repeat // @lengthOf(
+i64 A  ,
+    // a // b
+    @leftPad // trailing space 
+( ' ') @calculatedFrom( ""it's"" )
+chars	{  repeat char[] rootA ,  } , } packet roots{ @calculatedFrom( ""x y"")
+@lengthOf( crc ) u8 tag ,} MetaData
+    body // trailing space 
+{
+T	msg_type , _x
+Logon `two words`
+,
+    }
+")).
+Eval vm_compute in ("<<<M1848>>>" ++ check (runes_of_ascii "packet msg_type {
+    @lengthOf(trueish)
+    @calculatedFrom(""packet"")
+    @rightPad()
+    trueish chars,
+}
+
+root packet i64_ {
+}
+
+packet charz {
+    // " ++ [128512]%N ++ runes_of_ascii " emoji
+    repeat float64 u8x `{ , }`,
+    roots @lengthOf(BodyLength) ``,
+    repeat string Header,
+    Z9_ @lengthOf(A),
+    @rightPad()
+    repeat len `" ++ [233]%N ++ runes_of_ascii "`,
+    float64 Foo @lengthOf(Header),
+    repeat char[0] charz `say ""hi""`,
+    string a1,
+    @leftPad('0')
+    metadata {
+        zchar[42] i8i8 @lengthOf(lengthOf),
+        //x
+        /// triple
+    },
+}
+
+options {
+}")).
+Eval vm_compute in ("<<<M303>>>" ++ check (runes_of_ascii "
+options
+{  charz
+    = false ; Z9_
+    = ""\" ++ [233]%N ++ runes_of_ascii """ ;// c
+} options { falsey
+= char[] ;} packet metadata {
+@tag(
+    4294967296
+    ) match int as
+    float
+{
+[ 0 ,0123456789
+,  42 ,7 ,""a\""b"" , 7 ]
+: zchar
+, ""1""  :options1
+//
+// " ++ [128512]%N ++ runes_of_ascii " emoji
+,
+    }, @tag(10 ) match msg_type
+as Foo  { ""a	b"" : rootA , 65535
+    : roots /// triple
+, 00:// `tick` ""quote"" 'q'
+trueish,""\" ++ [233]%N ++ runes_of_ascii """
+    : MetaDataX,
+//x
+// 50% %s
+00
+    :Logon ,
+} ,repeat len packetx
+,
+    @lengthOf(Foo ) len`two words`	, roots, } //x")).
+Eval vm_compute in ("<<<M1641>>>" ++ check (runes_of_ascii "packet int
+{ uint16 BodyLength
+
+, 
+zchar[255 ] charz 	 // @lengthOf(
+    `100% of %d`
+    , Logon
+@lengthOf( MetaDataX)
+,	}
+
+packet	// " ++ [27880; 37322]%N ++ runes_of_ascii "
+a1{
+
+    match pack as // `tick` ""quote"" 'q'
+    msg_type
+	{ 10
+:float
+,""" ++ [233]%N ++ runes_of_ascii "t" ++ [233]%N ++ runes_of_ascii """ 
+:
+	charz
+,
+	4294967296 : 
+Foo
+
+    ,
+
+""" ++ [233]%N ++ runes_of_ascii "t" ++ [233]%N ++ runes_of_ascii """ 
+:	u128,	} ,
+    repeat
+
+Pad 
+{ repeat Foo 
+  //x
+{ uint64 
+    // `tick` ""quote"" 'q'
+      Header,repeat
+
+    roots  rootA 
+`say ""hi""`, }
+    ,
+	}
+,} 
+packet
+	Header{
+    }
+")).
+Eval vm_compute in ("<<<M1384>>>" ++ check (runes_of_ascii "options {
     LittleEndian = false;
     StringPrefixLenType = u16;
     FixedStringPadFromLeft = true;
@@ -599,401 +618,458 @@ root packet Order {
     match f1 as Body {
         [159, 49] : Fill,
     },
-    u16 Tail @calculatedFrom(""CR\
-C32""),
+    u16 Tail @calculatedFrom(""CRC32""),
 }
 ")).
-Eval vm_compute in ("<<<M226>>>" ++ check (runes_of_ascii "packet Foo  {
-    char
-pack@calculatedFrom(""CRC32"") `crlf
-line` // " ++ [128512]%N ++ runes_of_ascii " emoji
-,
-@leftPad (
-    )
-    Logon
-, } options
-{ tag  = ' '  msg_type // " ++ [128512]%N ++ runes_of_ascii " emoji
-=  ""// no comment"" ; x_y_z
-=//x
-int32 calculatedFrom =// `tick` ""quote"" 'q'
-string
-; u128= char[]
-} packet BodyLength { char[]
-body @calculatedFrom(
-""" ++ [233]%N ++ runes_of_ascii "t" ++ [233]%N ++ runes_of_ascii """
-    // " ++ [128512]%N ++ runes_of_ascii " emoji
-    )
-    ,	uint16 MetaDataX @calculatedFrom(
-""a	b"" )  ,}
-")).
-Eval vm_compute in ("<<<M102>>>" ++ check (runes_of_ascii "  packet matchKey { repeat BodyLength
-{
-metadata ,
-    string asx `{ , }` ,
-    }
-    , len
-{
-    repeat a1 charz
-    // trailing space 
-    ,}  ,} packet
-i8i8 { repeat  char[
-0123456789 // @lengthOf(
-]Z9_
-    `it's` ,  match // trailing space 
-Packet  as float { 1 :
-lengthOf}
-    , }
-    packet x_y_z	{	repeat char[	1 ]
-    //
-    falsey	,
-    }
-")).
-Eval vm_compute in ("<<<M217>>>" ++ check (runes_of_ascii "root packet i8i8 {
-    msg_type@lengthOf( asx
-    // packet A { u8 x, }
-    )  , Logon
-{ msg_type{ repeat
-x_y_z `say ""hi""` ,
-    }
-, } ,
-    Z9_ , repeatCount
-//x
-/// triple
-{char[]	asx,
-    // " ++ [128512]%N ++ runes_of_ascii " emoji
-    float32 options1,
-repeat  uint64 x	`two words`,chars
-    `` , } ,
-// 50% %s
-// 50% %s
-repeat A float , } 	 ")).
-Eval vm_compute in ("<<<M108>>>" ++ check (runes_of_ascii "packet matchKey {repeat len{ zchar,
-match Foo as x { 65535 : asx , 65535 :
-// " ++ [128512]%N ++ runes_of_ascii " emoji
-//	t
-charz 1 : BodyLength ,
-""{,}"": falsey, 1 :zchar, } , }  , }  MetaData // 50% %s
-zchar
-    // packet A { u8 x, }
-    {zchar[7 ] trueish ,u16 matchKey	,
-} options {
-MetaDataX	=
-false }")).
-Eval vm_compute in ("<<<M1826>>>" ++ check (runes_of_ascii "packet rootA {
-    match BodyLength as A {
-        42 : leftPad,
-        1 : u8x,
-        [10, """ ++ [128512]%N ++ runes_of_ascii """] : i8i8,
-        7 : u8x,
-        007 : trueish,
-        // c
-    },
-    o uint8x,
-    repeat zchar[7] pack,
-    string x_y_z @lengthOf(charz) `
-    `,
-}// c")).
-Eval vm_compute in ("<<<M474>>>" ++ check (runes_of_ascii "packet
-    asx { @calculatedFrom(
-""""  ) @tag( 255 )repeat
-// packet A { u8 x, }
-// trailing space 
-int16 u8x
-,
-@tag(
-    //
-    007 )
-    @tag( uint32
-    /// triple
-    ) @tag( 1) u
-    @lengthOf( T ),
-// `tick` ""quote"" 'q'
-//x
-} // " ++ [128512]%N ++ runes_of_ascii " emoji")).
-Eval vm_compute in ("<<<M534>>>" ++ check (runes_of_ascii "packet
-    asx { @calculatedFrom(
-""""  ) @tag( 255 )repeat
-// packet A { u8 x, }
-// trailing space 
-int16 u8x
-,
-@tag(
-    //
-    007 )
-    @tag( 0
-    /// triple
-    ) @tag( 1| ) u
-    @lengthOf( T ),
-// `tick` ""quote"" 'q'
-//x
-} // " ++ [128512]%N ++ runes_of_ascii " emoji")).
-Eval vm_compute in ("<<<M453>>>" ++ check (runes_of_ascii "packet
-    asx { @calculatedFrom(
-""""  ) @tag( 255 )repeat
-// packet A { u8 x, }
-// trailing space 
-int16 u8x
-,
-007
-    //
-    @tag( )
-    @tag( 0
-    /// triple
-    ) @tag( 1) u
-    @lengthOf( T ),
-// `tick` ""quote"" 'q'
-//x
-} // " ++ [128512]%N ++ runes_of_ascii " emoji")).
-Eval vm_compute in ("<<<M496>>>" ++ check (runes_of_ascii "packet
-    asx { @calculatedFrom(
-""""  ) @tag( 255 )repeat
-// packet A { u8 x, }
-// trailing space 
-int16 u8x
-,
-@tag(
-    //
-    007 )
-    @tag( 0
-    /// triple
-    ) @tag( 1) 
-    @lengthOf( T ),
-// `tick` ""quote"" 'q'
-//x
-} // " ++ [128512]%N ++ runes_of_ascii " emoji")).
-Eval vm_compute in ("<<<M1599>>>" ++ check (runes_of_ascii "root  packet
-
-    //	t
-Logon { zchar[
-
-42 	 // packet A { u8 x, }
-	  ] 
-        // c
-// 50% %s
-    uint8x
-    `it's` 
-, 
-        //x
-    @lengthOf(
-Z9_ ) Pad 
-{
-    repeat 	 // `tick` ""quote"" 'q'
-	i64_ 
-`" ++ [28040; 24687; 31867; 22411]%N ++ runes_of_ascii "`
-
-    ,	}	, }
-")).
-Eval vm_compute in ("<<<M1588>>>" ++ check (runes_of_ascii "options
-{
-
-    Packet=u16;  f32a 
-    //
-	= ""a\""b""
-
-lengthOf=
-'0'  ;
-	uint8x	= i8	uint8x =
-	'\x00'
-; 
-}
-    packet	rootA	{
-} 
-options
+Eval vm_compute in ("<<<M1362>>>" ++ check (runes_of_ascii "options
 
     {
+	LittleEndian
+= true
+	;StringPrefixLenType 
+=u16  ;
+	ArrayPrefixLenType=
 
-    uint8x= 
+u16
 
-// a // b
-		""\" ++ [233]%N ++ runes_of_ascii """
-	}
-    MetaData 
-Packet 
-{	} ")).
-Eval vm_compute in ("<<<M1317>>>" ++ check (runes_of_ascii "// top
-packet
-    // c0
-orderItem { // c2a
-  // c2b
-u8 // c3
-a , }
-    // c6
-root
-    // c7
-packet // c8a
-  // c8b
-newOrder { // c10
-orderItem ,
-    // c12
-u8 x // c14a
-  // c14b
-, // c15
-} ")).
-Eval vm_compute in ("<<<M1683>>>" ++ check (runes_of_ascii "packet A {
-    match k as n {
-        ""\
-        "" : B,
-        [""\
-        "", 1] : C,
-        [
-            1, 2, 3, 4, 5,
-            ""\
-            ""
-        ] : D,
-    },
-}")).
-Eval vm_compute in ("<<<M654>>>" ++ check (runes_of_ascii "MetaData u
-    { } MetaData o
-{ float uint8x
-`100% of %d` ,repeatCount u8x, string_ leftPad
-, i32
-    Foo , int64 uint8 `two words` , calculatedFrom
-stringy `a\` ,
-}
-")).
-Eval vm_compute in ("<<<M696>>>" ++ check (runes_of_ascii "MetaData u
-    { } MetaData o
-{ float uint8x
-`100% of %d` ,repeatCount u8x, string_ leftPad
-'', i32
-    Foo , int64 x `two words` , calculatedFrom
-stringy `a\` ,
-}
-")).
-Eval vm_compute in ("<<<M608>>>" ++ check (runes_of_ascii "MetaData u
-    { } MetaData o
-{ float uint8x
-`100% of %d` ,repeatCount ,u8x string_ leftPad
-, i32
-    Foo , int64 x `two words` , calculatedFrom
-stringy `a\` ,
-}
-")).
-Eval vm_compute in ("<<<M661>>>" ++ check (runes_of_ascii "MetaData u
-    { } MetaData o
-{ float uint8x
-`100% of %d` ,repeatCount u8x, string_ leftPad
-, i32
-    Foo , int64 x `two words`  calculatedFrom
-stringy `a\` ,
-}
-")).
-Eval vm_compute in ("<<<M619>>>" ++ check (runes_of_ascii "MetaData u
-    { } MetaData o
-{ float uint8x
-`100% of %d` ,repeatCount u8x, : leftPad
-, i32
-    Foo , int64 x `two words` , calculatedFrom
-stringy `a\` ,
-}
-")).
-Eval vm_compute in ("<<<M1822>>>" ++ check (runes_of_ascii "options  {
-}	options
-
-    {
-    MetaDataX 	 // c
-	=
-
-char ;
-    }MetaData  Pad
-    {
-
-i8  metadata ,
-    string stringy  , int8 As `{ , }`  ,
-    }
-")).
-Eval vm_compute in ("<<<M1659>>>" ++ check (runes_of_ascii "packet A {
-    match k as n {
-        [
-            1, 22, ""c c"", 4, 5,
-            ""f"", 7, 8, ""i"", 10
-        ] : B,
-        2 : C,
-    },
-}")).
-Eval vm_compute in ("<<<M1613>>>" ++ check (runes_of_ascii "options 
-
-// c
-  {	} 
-options
-	{
-
-MetaDataX=
-    char
+    ; 
+FixedStringPadFromLeft
+= true
 ;
+FixedStringPadChar
 
-    }MetaData Pad {	i8 metadata	,string
+    =  '0' ;
 
-stringy ,	int8	As
-`{ , }` ,
+    }	packet	Leg { u16 Flags
+, 
+u8
+price , 
+} packet
 
+    Quote
+{
+
+    uint16
+
+count
+	,
+    InNote89
+
+{	repeat  Leg, }
+
+,} root
+packet
+Ack {  char[
+	3
+
+    ] price , u64 sym, 
+zchar[
+1 
+]
+
+Tail, }
+")).
+Eval vm_compute in ("<<<M1159>>>" ++ check (runes_of_ascii "// top
+MetaData // c0
+x // c1
+{ // c2
+f32a // c3
+Pad // c4
+`` // c5
+, // c6
+} // c7
+packet // c8
+leftPad // c9
+{ // c10
+repeat // c11
+int64 // c12
+crc // c13
+, // c14
+BodyLength // c15
+{ // c16
+uint8 // c17
+pack // c18
+`say ""hi""` // c19
+, // c20
+lengthOf // c21
+@lengthOf( // c22
+asx // c23
+) // c24
+`" ++ [28040; 24687; 31867; 22411]%N ++ runes_of_ascii "` // c25
+, // c26
+} // c27
+, // c28
+} // c29
+")).
+Eval vm_compute in ("<<<M1373>>>" ++ check (runes_of_ascii "options {
+    StringPrefixLenType = u16;
+    ArrayPrefixLenType = u64;
+}
+packet Order {
+    float64 Ref,
+    repeat i32 lastPx,
+}
+packet Fill {
+    zchar[9] Ref,
+    zchar[4] Px,
+    Order,
+    int8 count,
+}
+packet Cancel {
+    i16 Side2,
+    Order,
+}
+root packet Party {
+    float64 Px,
+    zchar[1] clOrdID,
 }
 ")).
-Eval vm_compute in ("<<<M1513>>>" ++ check (runes_of_ascii "options{	} options{	MetaDataX=
-char;  }MetaData Pad{
-i8  metadata
-, string stringy
-	, int8
+Eval vm_compute in ("<<<M340>>>" ++ check (runes_of_ascii "packet o {
+    float64  zchar
+@lengthOf(trueish ) // `tick` ""quote"" 'q'
+, } packet packetx
+    {  } root	packet trueish { char[1 ]Z9_ @lengthOf( body
+    ) , @lengthOf(chars
+)
+    msg_type i64_ , u16
+Logon ,
+int64 Packet
+    // `tick` ""quote"" 'q'
+    , // packet A { u8 x, }
+}
+")).
+Eval vm_compute in ("<<<M1465>>>" ++ check (runes_of_ascii "packet BodyLength {
+}
 
-As
+MetaData Z9_ {
+    // c
+    Z9_ _x,
+}
 
-    `{ , }`
-	// c
+packet float {
+    @tag(42)
+    @calculatedFrom(""// no comment"")
+    char[42] packetx `it's`,
+}
+
+MetaData body {
+    uint16 zchar `" ++ [233]%N ++ runes_of_ascii "`,
+    i32 Pad `" ++ [28040; 24687; 31867; 22411]%N ++ runes_of_ascii "`,
+    i8 Header,
+    u16 u128,
+    i32 u,
+}")).
+Eval vm_compute in ("<<<M390>>>" ++ check (runes_of_ascii "4294967296
+    asx { @calculatedFrom(
+""""  ) @tag( 255 )repeat
+// packet A { u8 x, }
+// trailing space 
+int16 u8x
+,
+@tag(
+    //
+    007 )
+    @tag( 0
+    /// triple
+    ) @tag( 1) u
+    @lengthOf( T ),
+// `tick` ""quote"" 'q'
+//x
+} // " ++ [128512]%N ++ runes_of_ascii " emoji")).
+Eval vm_compute in ("<<<M531>>>" ++ check (runes_of_ascii "packet
+    asx { @calculatedFrom(
+""""  ) @tag( 255 )repeat
+// packet A { u8 x, }
+// trailing space 
+int16 u8x
+,
+@tag(
+    //
+    007 )
+    @tag( 0" ++ [8232]%N ++ runes_of_ascii "
+    /// triple
+    ) @tag( 1) u
+    @lengthOf( T ),
+// `tick` ""quote"" 'q'
+//x
+} // " ++ [128512]%N ++ runes_of_ascii " emoji")).
+Eval vm_compute in ("<<<M478>>>" ++ check (runes_of_ascii "packet
+    asx { @calculatedFrom(
+""""  ) @tag( 255 )repeat
+// packet A { u8 x, }
+// trailing space 
+int16 u8x
+,
+@tag(
+    //
+    007 )
+    @tag( 0
+    /// triple
+    @tag( ) 1) u
+    @lengthOf( T ),
+// `tick` ""quote"" 'q'
+//x
+} // " ++ [128512]%N ++ runes_of_ascii " emoji")).
+Eval vm_compute in ("<<<M394>>>" ++ check (runes_of_ascii "packet
+    { { @calculatedFrom(
+""""  ) @tag( 255 )repeat
+// packet A { u8 x, }
+// trailing space 
+int16 u8x
+,
+@tag(
+    //
+    007 )
+    @tag( 0
+    /// triple
+    ) @tag( 1) u
+    @lengthOf( T ),
+// `tick` ""quote"" 'q'
+//x
+} // " ++ [128512]%N ++ runes_of_ascii " emoji")).
+Eval vm_compute in ("<<<M206>>>" ++ check (runes_of_ascii "options
+{ crc
+    ='\x00' ; uint8x = // " ++ [27880; 37322]%N ++ runes_of_ascii "
+""x y""; a1= """ ++ [28040; 24687]%N ++ runes_of_ascii """
+o =
+    '\x00'
+// trailing space 
+// trailing space 
+charz = 4294967296 //
+}
+    options  {
+    // " ++ [128512]%N ++ runes_of_ascii " emoji
+    stringy
+// `tick` ""quote"" 'q'
+// 50% %s
+= '0'; }
+")).
+Eval vm_compute in ("<<<M1973>>>" ++ check (runes_of_ascii "// top
+options {
+    // c1
+}// c2
+
+options {
+    // c4
+    MetaDataX = char;// c8
+}// c9
+
+MetaData Pad {
+    // c12
+    i8 metadata,// c15
+    string stringy,// c18
+    int8 As `{ , }`,// c22
+}// c23")).
+Eval vm_compute in ("<<<M505>>>" ++ check (runes_of_ascii "packet
+    asx { @calculatedFrom(
+""""  ) @tag( 255 )repeat
+// packet A { u8 x, }
+// trailing space 
+int16 u8x
+,
+@tag(
+    //
+    007 )
+    @tag( 0
+    /// triple
+    ) @tag( 1) u")).
+Eval vm_compute in ("<<<M639>>>" ++ check (runes_of_ascii "MetaData u
+    { } MetaData o
+{ float uint8x
+`100% of %d` ,repeatCount u8x, string_ leftPad
+, i32
+    `two words` , int64 x `two words` , calculatedFrom
+stringy `a\` ,
+}
+")).
+Eval vm_compute in ("<<<M557>>>" ++ check (runes_of_ascii "MetaData u
+    { { } MetaData o
+{ float uint8x
+`100% of %d` ,repeatCount u8x, string_ leftPad
+, i32
+    Foo , int64 x `two words` , calculatedFrom
+stringy `a\` ,
+}
+")).
+Eval vm_compute in ("<<<M1653>>>" ++ check (runes_of_ascii "  packet A 
+{
+	match
+k
+as
+
+    n  {
+	[
+    ""a"" , ""bb""
+	, ""c c"" ,
+	""d""
+
+, 
+""e""
+
+, 
+""f"" , ""g"",
+
+    ""h""	, ""i""
+
 ,
 
+""j""
+	,	""k"", ""l"" ] 
+:
+	B
+
+2 :
+
+    C
+
+    },}
+")).
+Eval vm_compute in ("<<<M668>>>" ++ check (runes_of_ascii "MetaData u
+    { } MetaData o
+{ float uint8x
+`100% of %d` ,repeatCount u8x, string_ leftPad
+, i32
+    Foo , int64 x `two words` , stringy
+calculatedFrom `a\` ,
 }
 ")).
-Eval vm_compute in ("<<<M905>>>" ++ check (runes_of_ascii "packet A {
-  match k as n {
-    [""a"", ""bb"", ""c c"", ""d"", ""e"", ""f"", ""g"", ""h"", ""i"", ""j"", ""k"", ""l""] : B
-    2 : C
-  },
+Eval vm_compute in ("<<<M689>>>" ++ check (runes_of_ascii "MetaData u
+    { } MetaData o
+{ float uint8x
+`100% of %d` ,repeatCount u8x, string_ leftPad
+, i32
+    Foo , int64 x `two words` , calculatedFrom
+stringy `a\` ,")).
+Eval vm_compute in ("<<<M203>>>" ++ check (runes_of_ascii "options { Foo
+    =true len = '0' ; metadata
+=
+    u32
+;repeatCount =42
+}
+MetaData lengthOf {}
+    options {options1
+= zchar[
+    0123456789  ] } // " ++ [27880; 37322]%N)).
+Eval vm_compute in ("<<<M1765>>>" ++ check (runes_of_ascii "
+options
+
+    {  }options
+{
+
+    MetaDataX
+=
+char 
+;  } MetaData 
+Pad 
+{ 
+i8 metadata,
+	string
+stringy
+
+    , int8	As // c
+    	`{ , }`
+
+,
 }")).
-Eval vm_compute in ("<<<M1215>>>" ++ check (runes_of_ascii "options { } options { MetaDataX = // c
-char ; } MetaData Pad { i8 metadata , string stringy , int8 As `{ , }` , }")).
-Eval vm_compute in ("<<<M1247>>>" ++ check (runes_of_ascii "options { } options { MetaDataX = char ; } MetaData Pad { i8 metadata , string stringy , int8 As `{ , }` , // c
-}")).
-Eval vm_compute in ("<<<M953>>>" ++ check (runes_of_ascii "packet A {
-    u16 len @lengthOf(body) `
-x`,
-    u32 crc @calculatedFrom(""CRC32"") `
-x`,
+Eval vm_compute in ("<<<M1277>>>" ++ check (runes_of_ascii "
+
+  packet
+
+    B { u8
+    a ,
+}root
+packet
+P { u8 
+K,
+	match
+    K
+    as
+	Body{
+
+1 :
+
+B , } ,u16 L
+    @lengthOf( 
+Body  ) ,
+}
+")).
+Eval vm_compute in ("<<<M1676>>>" ++ check (runes_of_ascii "packet A {
+    u16 len @lengthOf(body) `tab
+        	x`,
+    u32 crc @calculatedFrom(""CRC32"") `tab
+        	x`,
     string body,
 }")).
-Eval vm_compute in ("<<<M1727>>>" ++ check (runes_of_ascii "packet  A	{ 
-Inner 
-{
-
-u8
-    x  `100% of %s %d %v` 
-, Deep
-{  u8 y`100% of %s %d %v`  ,
-	}  ,
-
-}	,}
-")).
-Eval vm_compute in ("<<<M345>>>" ++ check (runes_of_ascii "
-options
-    { Packet//x
-=""a\\""
-Logon
-    = true f32a
-    = true // 50% %s
-;falsey = false
-; }")).
-Eval vm_compute in ("<<<M356>>>" ++ check (runes_of_ascii "options{asx
-    // " ++ [128512]%N ++ runes_of_ascii " emoji
-    = char
+Eval vm_compute in ("<<<M199>>>" ++ check (runes_of_ascii "MetaData matchKey { u8
+T	, rootA _x	, falsey options1
+`100% of %d` , zchar[ 7 ] msg_type
+, zchar /// triple
+charz ,
+}")).
+Eval vm_compute in ("<<<M1206>>>" ++ check (runes_of_ascii "options {
+// c
+} options { MetaDataX = char ; } MetaData Pad { i8 metadata , string stringy , int8 As `{ , }` , }")).
+Eval vm_compute in ("<<<M1238>>>" ++ check (runes_of_ascii "options { } options { MetaDataX = char ; } MetaData Pad { i8 metadata , string stringy
+// c
+, int8 As `{ , }` , }")).
+Eval vm_compute in ("<<<M374>>>" ++ check (runes_of_ascii "
+packet options1{
+repeat char[] A `" ++ [233]%N ++ runes_of_ascii "`
+//x
+// 50% %s
+, float rootA
+    ,  Foo ,
+    } root packet Z9_  {
 }
-options{  }
-    packet BodyLength {
-    a1 uint8x , }")).
-Eval vm_compute in ("<<<M857>>>" ++ check (runes_of_ascii "packet A {
+")).
+Eval vm_compute in ("<<<M1580>>>" ++ check (runes_of_ascii "
+// top
+	options
+	// c0
+	{ 
+	// c1
+  A
+
+// c2
+		=
+// c3
+""// no comment""
+    // c4
+	  }
+// c5
+")).
+Eval vm_compute in ("<<<M883>>>" ++ check (runes_of_ascii "packet A {
   match k as n {
-    [""a"", 22, ""c c"", 4, ""e"", 66, ""g"", 8] : B
+    [""a"", 22, ""c c"", 4, ""e"", 66, ""g"", 8, ""i"", 10] : B
     2 : C
   },
 }")).
+Eval vm_compute in ("<<<M1293>>>" ++ check (runes_of_ascii "root packet
+
+    P
+{
+    u16  a ,
+u32
+    Sum
+
+    @calculatedFrom(
+	""CRC32"" ) ,
+
+    } ")).
+Eval vm_compute in ("<<<M1727>>>" ++ check (runes_of_ascii "
+
+  packet A{	// a
+  @tag(
+
+    1)  u8 x , // b
+
+	// c
+  @tag(
+2	)
+u8
+
+    y , 
+} ")).
 Eval vm_compute in ("<<<M1257>>>" ++ check (runes_of_ascii "options {
     LittleEndian = true;
 }
@@ -1002,91 +1078,92 @@ root packet P {
     u8 x,
 }
 ")).
-Eval vm_compute in ("<<<M45>>>" ++ check (runes_of_ascii "root packet
-// a // b
-/// triple
-msg_type{ uint64 matchKey@lengthOf(
-    _x ), }
+Eval vm_compute in ("<<<M1847>>>" ++ check (runes_of_ascii "
+
+  packet  _x
+{	}
+    root
+	packet 
+leftPad {	} 
+options{Pad
+=
+
+    string;}
+
 ")).
-Eval vm_compute in ("<<<M620>>>" ++ check (runes_of_ascii "MetaData u
-    { } MetaData o
-{ float uint8x
-`100% of %d` ,repeatCount u8x,")).
-Eval vm_compute in ("<<<M820>>>" ++ check (runes_of_ascii "packet A {
-  match k as n {
-    [1, 22, ""c c"", 4, 5] : B
-    2 : C
-  },
+Eval vm_compute in ("<<<M1430>>>" ++ check (runes_of_ascii "packet A {
+    // a
+    @tag(1)
+    u8 x,// b
+    // c
+    @tag(2)
+    u8 y,
 }")).
-Eval vm_compute in ("<<<M796>>>" ++ check (runes_of_ascii "packet A {
-  match k as n {
-    [""a"", ""bb"", 007] : B
-    2 : C
-  },
+Eval vm_compute in ("<<<M1941>>>" ++ check (runes_of_ascii "root packet
+    P
+    {
+u16 a
+,
+	u32
+	Sum @calculatedFrom(""CRC32""  )
+, 
 }")).
+Eval vm_compute in ("<<<M1809>>>" ++ check (runes_of_ascii "
+packet
+	int	// 50% %s
+{ Logon	@calculatedFrom( ""1""
+)
+,	} // 50% %s
+")).
 Eval vm_compute in ("<<<M1180>>>" ++ check (runes_of_ascii "// top
 options // c0a
   // c0b
 { A
     // c2
 = ""// no comment"" } ")).
-Eval vm_compute in ("<<<M1163>>>" ++ check (runes_of_ascii "// top
-packet
+Eval vm_compute in ("<<<M1121>>>" ++ check (runes_of_ascii "// top
+MetaData
     // c0
-x
+tag
     // c1
-{
-    // c2
+{ // c2
 }
     // c3
 ")).
-Eval vm_compute in ("<<<M772>>>" ++ check (runes_of_ascii "packet A {
-  match k as n {
-    [1] : B
-    2 : C
-  },
-}")).
-Eval vm_compute in ("<<<M1485>>>" ++ check (runes_of_ascii "// c
-MetaData leftPad {
-    msg_type As `{ , }`,
-}")).
-Eval vm_compute in ("<<<M1656>>>" ++ check (runes_of_ascii "
-packet
+Eval vm_compute in ("<<<M205>>>" ++ check (runes_of_ascii "
+options { f32a =
+true
+    // " ++ [128512]%N ++ runes_of_ascii " emoji
+    ; } // " ++ [128512]%N ++ runes_of_ascii " emoji")).
+Eval vm_compute in ("<<<M1821>>>" ++ check (runes_of_ascii "options{
 
-    A{
-    u8
-x `d" ++ [12]%N ++ runes_of_ascii "`,  // c" ++ [12]%N ++ runes_of_ascii "
+    A  =	// c
+		""// no comment"" 
 }
-
 ")).
-Eval vm_compute in ("<<<M1791>>>" ++ check (runes_of_ascii "root packet A {
-    u8 x `x
-        `,
-}")).
-Eval vm_compute in ("<<<M1184>>>" ++ check (runes_of_ascii "options
-// c
-{ A = ""// no comment"" }")).
+Eval vm_compute in ("<<<M1444>>>" ++ check (runes_of_ascii "MetaData
+float {  uint16
+
+    float
+
+, }")).
+Eval vm_compute in ("<<<M768>>>" ++ check (runes_of_ascii "w<w-(B[D_CTb}.VTf6[j)R_7Mxw1`%hl?2D>/d")).
+Eval vm_compute in ("<<<M1189>>>" ++ check (runes_of_ascii "options { A = // c
+""// no comment"" }")).
 Eval vm_compute in ("<<<M742>>>" ++ check (runes_of_ascii "i16 string match { MetaData uint8")).
-Eval vm_compute in ("<<<M1012>>>" ++ check (runes_of_ascii "packet A {
- u8 x `d" ++ [133]%N ++ runes_of_ascii "`, // c" ++ [133]%N ++ runes_of_ascii "
+Eval vm_compute in ("<<<M1764>>>" ++ check (runes_of_ascii "packet A {
+    // a
+    u8 x,
 }")).
-Eval vm_compute in ("<<<M575>>>" ++ check (runes_of_ascii "MetaData u
-    { } MetaData")).
-Eval vm_compute in ("<<<M1943>>>" ++ check (runes_of_ascii "
-
-  options//	t
-
-	{ 
+Eval vm_compute in ("<<<M759>>>" ++ check ([15]%N ++ runes_of_ascii "2	k" ++ [65533]%N ++ runes_of_ascii "p" ++ [65533; 65533]%N ++ runes_of_ascii "6" ++ [65533]%N ++ runes_of_ascii "f" ++ [65533]%N ++ runes_of_ascii "@""y" ++ [65533; 25; 65533; 65533]%N ++ runes_of_ascii "?" ++ [65533; 65533; 65533]%N ++ runes_of_ascii "Y" ++ [65533; 65533]%N ++ runes_of_ascii "#" ++ [65533]%N)).
+Eval vm_compute in ("<<<M1103>>>" ++ check (runes_of_ascii "packet A { // a
+ u8 x, }")).
+Eval vm_compute in ("<<<M1088>>>" ++ check (runes_of_ascii "// a// bpacket A {}")).
+Eval vm_compute in ("<<<M1020>>>" ++ check (runes_of_ascii "packet A {
 }
-")).
-Eval vm_compute in ("<<<M1126>>>" ++ check (runes_of_ascii "MetaData tag // c
-{ }")).
-Eval vm_compute in ("<<<M1021>>>" ++ check (runes_of_ascii "// c" ++ [8192]%N ++ runes_of_ascii "
-packet A {
+// c" ++ [8192]%N)).
+Eval vm_compute in ("<<<M727>>>" ++ check (runes_of_ascii "// only a comment")).
+Eval vm_compute in ("<<<M1532>>>" ++ check (runes_of_ascii "MetaData tag {
 }")).
-Eval vm_compute in ("<<<M998>>>" ++ check (runes_of_ascii "packet A {
-}// c" ++ [12288]%N)).
-Eval vm_compute in ("<<<M1563>>>" ++ check (runes_of_ascii "MetaData tag {
-}")).
-Eval vm_compute in ("<<<M748>>>" ++ check (runes_of_ascii "&{`8[")).
-Eval vm_compute in ("<<<M729>>>" ++ check (runes_of_ascii "/")).
+Eval vm_compute in ("<<<M395>>>" ++ check (runes_of_ascii "packet")).
+Eval vm_compute in ("<<<M726>>>" ++ check (runes_of_ascii "		")).
